@@ -83,6 +83,17 @@ def gen_program(rng, nclasses=None):
             pos = 0
             nins = rng.choice([1, 3, 6, 12])
             for _ in range(nins):
+                if rng.random() < 0.06:
+                    # a data payload in the MIDDLE of the code, jumped over by a goto (legal; rewriters and obfuscators emit it): the
+                    # instructions after it are ordinary code
+                    pay = rng.choice([D.fill_array_payload(1, b"\x01\x02\x03"), D.packed_switch_payload(0, []), D.sparse_switch_payload([], []), D.fill_array_payload(4, b"")])
+                    if pos % 2 == 0:
+                        m.insns.append(("nop",))
+                        pos += 1
+                    m.insns.append(("goto", 1 + len(pay)))
+                    pos += 1
+                    m.insns.extend(pay)
+                    pos += len(pay)
                 r = rng.random()
                 ins = None
                 site = None
